@@ -169,9 +169,12 @@ impl BezPath {
                     last_cmd = c;
                 }
                 b't' | b'T' => {
+                    // The reflected control point is only defined after Q/q/T/t.
                     let p1 = match last_ctrl {
-                        Some(ctrl) => (2.0 * lexer.last_pt.to_vec2() - ctrl.to_vec2()).to_point(),
-                        None => lexer.last_pt,
+                        Some(ctrl) if matches!(last_cmd, b'q' | b'Q' | b't' | b'T') => {
+                            (2.0 * lexer.last_pt.to_vec2() - ctrl.to_vec2()).to_point()
+                        }
+                        _ => lexer.last_pt,
                     };
                     let p2 = lexer.get_maybe_relative(c)?;
                     path.quad_to(p1, p2);
@@ -189,9 +192,12 @@ impl BezPath {
                     last_cmd = c;
                 }
                 b's' | b'S' => {
+                    // The reflected control point is only defined after C/c/S/s.
                     let p1 = match last_ctrl {
-                        Some(ctrl) => (2.0 * lexer.last_pt.to_vec2() - ctrl.to_vec2()).to_point(),
-                        None => lexer.last_pt,
+                        Some(ctrl) if matches!(last_cmd, b'c' | b'C' | b's' | b'S') => {
+                            (2.0 * lexer.last_pt.to_vec2() - ctrl.to_vec2()).to_point()
+                        }
+                        _ => lexer.last_pt,
                     };
                     let p2 = lexer.get_maybe_relative(c)?;
                     let p3 = lexer.get_maybe_relative(c)?;
@@ -237,6 +243,7 @@ impl BezPath {
                 b'z' | b'Z' => {
                     path.close_path();
                     lexer.last_pt = first_pt;
+                    last_ctrl = None;
                     implicit_moveto = Some(first_pt);
                 }
                 _ => return Err(SvgParseError::UnknownCommand(c as char)),
